@@ -1,4 +1,5 @@
 import QrlModel.Proofs.DilPack
+import QrlModel.Proofs.DilSigCanon
 /-! # C13 — Dilithium key and signature encodings are lossless and canonical
 
 Lane identities are proved on the *generated* lane functions (the loop bodies of the ten pack/unpack
@@ -34,6 +35,17 @@ theorem z_canonical (b : Bytes) (hl : b.length = 640) : polyZPack (polyZUnpack b
 /-- w1 (4 bits): the packing is injective on [0,16)^256 -/
 theorem w1_lossless (a b : Poly) (ha : a.length = 256) (hb : b.length = 256) (hra : ∀ x ∈ a, x < 16#32) (hrb : ∀ x ∈ b, x < 16#32)
     (h : polyW1Pack a = polyW1Pack b) : a = b := w1_injective a b ha hb hra hrb h
+
+/-- **hint vectors of every admissible weight round-trip**: K rows of 256 coefficients in {0,1}, total weight
+≤ ω = 75 (weight exactly 75 and empty rows included) -/
+theorem hints_lossless (h : List Poly) (hK : h.length = Gen.Dil.K) (hv : ∀ r ∈ h, DilHints.ValidRow r)
+    (hw : ((h.map rowPositions).flatten).length ≤ Gen.Dil.OMEGA) : unpackHints (packHints h) = some h :=
+  DilHints.hints_roundtrip h hK hv hw
+
+/-- **accepted ⇒ canonical**: whenever the decoder accepts a 4595-byte signature, re-encoding the decoded
+(c̃, z, h) reproduces exactly those bytes — so distinct accepted byte strings decode to distinct values -/
+theorem sig_canonical (sig : Bytes) (hl : sig.length = Gen.Dil.CryptoBytes) (parts : SigParts) (h : unpackSig sig = some parts) :
+    packSig parts.c parts.z parts.h = sig := DilHints.sig_canonical sig hl parts h
 
 /-- the signature layout: c̃ (32) ‖ z (7·640) ‖ hints (83) -/
 theorem sig_layout (c : Bytes) (z h : List Poly) (hc : c.length = 32) :
